@@ -51,11 +51,13 @@ OpName(op) == CASE op = OpMtuReq -> "ExchangeMtu" [] op = OpRead -> "Read" [] op
                 [] op = OpWriteCmd -> "WriteCmd" [] op = OpPrepare -> "Prepare" [] op = OpExecute -> "Execute"
                 [] op = OpConfirmation -> "Confirmation" [] OTHER -> "Op" \o ToString(op)
 Perm(a) == (IF a.rd THEN "r" ELSE "-") \o (IF a.wr THEN "w" ELSE "-")
+\* context of an attribute: <value kind + permission options> @ <effective permissions>
 AttrClass(h) ==
-    IF ~HasAttr(T, h) THEN "none"
+    IF ~HasAttr(T, h) THEN "none@--"
     ELSE LET a == AttrOf(h) IN
-         IF a.kind = "value" THEN CharOf(a).vkind \o ":" \o Perm(a) \o (IF CharOf(a).no_read THEN ":no_read" ELSE "")
-         ELSE a.kind
+         IF a.kind = "value"
+         THEN CharOf(a).vkind \o (IF CharOf(a).no_read THEN ":no_read" ELSE "") \o (IF CharOf(a).no_write THEN ":no_write" ELSE "") \o "@" \o Perm(a)
+         ELSE a.kind \o "@" \o Perm(a)
 HasHandle(in) == Len(in) >= 3 /\ in[1] \in {OpRead, OpReadBlob, OpWrite, OpWriteCmd, OpPrepare}
 SizeClass(c, in) ==
     IF ~HasHandle(in) \/ ~HasAttr(T, U16(in, 2)) THEN ""
@@ -63,6 +65,23 @@ SizeClass(c, in) ==
          CASE in[1] \in {OpWrite, OpWriteCmd} -> ":len" \o (IF Len(in) - 3 > n THEN ">" ELSE IF Len(in) - 3 = n THEN "=" ELSE "<") \o "size"
            [] in[1] = OpReadBlob /\ Len(in) = 5 -> ":off" \o (IF U16(in, 4) > n THEN ">" ELSE IF U16(in, 4) = n THEN "=" ELSE "<") \o "size"
            [] OTHER -> ""
+\* the attribute a multi-attribute request / response fails on
+MultiHandles(in) == IF in[1] = OpReadMultiple /\ Len(in) >= 3 THEN [i \in 1..((Len(in) - 1) \div 2) |-> U16(in, 2 * i)] ELSE <<>>
+Offending(c, in, out) ==
+    IF in[1] = OpReadMultiple
+    THEN LET hs == MultiHandles(in)  bad == {i \in 1..Len(hs) : ~HasAttr(T, hs[i]) \/ ~AttrOf(hs[i]).rd} IN
+         IF bad = {} THEN 0 ELSE hs[CHOOSE i \in bad : \A j \in bad : i <= j]
+    ELSE IF in[1] = OpReadByType /\ RbtListed(out)
+    THEN LET es == RbtEntries(out)  bad == {i \in 1..Len(es) : ~RbtEntryOK(c, in, es[i])} IN
+         IF bad = {} THEN 0 ELSE U16(es[CHOOSE i \in bad : \A j \in bad : i <= j], 1)
+    ELSE 0
+RbtTags(c, in, out) ==
+    IF in[1] # OpReadByType \/ ~RbtListed(out) THEN {}
+    ELSE LET h == Offending(c, in, out) IN
+         IF h = 0 THEN {"first_entry_size"}
+         ELSE IF ~HasAttr(T, h) THEN {"no_such_attribute"}
+         ELSE IF ~AttrOf(h).rd THEN {"unreadable_reported"}
+         ELSE IF ~TypeEq(AttrOf(h).type, Drop(in, 5)) THEN {"wrong_type"} ELSE {"value"}
 GotClass(out) == IF out = <<>> THEN "none"
                  ELSE IF out[1] = OpError THEN "err" \o (IF Len(out) = 5 THEN ToString(out[5]) ELSE "?")
                  ELSE "rsp" \o ToString(out[1])
@@ -77,15 +96,16 @@ WhyReq(ev) ==
     LET c  == ev.c + 1
         os == Outcomes(c, ev.in)
         m  == {r \in os : PatMatches(r.pat, c, ev.in, ev.out)}
-        ctx == (IF HasHandle(ev.in) THEN AttrClass(U16(ev.in, 2)) ELSE "-") \o SizeClass(c, ev.in)
+        ctx == IF HasHandle(ev.in) THEN AttrClass(U16(ev.in, 2)) \o SizeClass(c, ev.in)
+               ELSE IF Offending(c, ev.in, ev.out) # 0 THEN AttrClass(Offending(c, ev.in, ev.out)) ELSE "-@-"
     IN  <<OpName(ev.in[1]), ctx,
           (IF Len(ev.out) > Mtu(c) THEN {"len>mtu"} ELSE {}) \cup
-          (IF m = {} THEN {"got=" \o GotClass(ev.out)} \cup {"exp=" \o x : x \in UNION {PatClass(r.pat) : r \in os}}
+          (IF m = {} THEN {"got=" \o GotClass(ev.out)} \cup {"exp=" \o x : x \in UNION {PatClass(r.pat) : r \in os}} \cup RbtTags(c, ev.in, ev.out)
            ELSE ObsDiff(ev, CHOOSE r \in m : \A q \in m : Cardinality(ObsDiff(ev, r)) <= Cardinality(ObsDiff(ev, q))))>>
 
 WhyOut(ev) ==
     LET c == ev.c + 1  out == ev.out IN
-    <<"Out", IF out = <<>> THEN "none" ELSE IF out[1] = OpNotification THEN "ntf" ELSE IF out[1] = OpIndication THEN "ind" ELSE "other",
+    <<"Out", (IF out = <<>> THEN "none" ELSE IF out[1] = OpNotification THEN "ntf" ELSE IF out[1] = OpIndication THEN "ind" ELSE "other") \o "@-",
       (IF Len(out) > Mtu(c) \/ ev.n > Mtu(c) THEN {"len>mtu"} ELSE {}) \cup
       (IF ev.n # Len(out) THEN {"n>capacity"} ELSE {}) \cup
       (IF out # <<>> /\ (Len(out) < 3 \/ out[1] \notin {OpNotification, OpIndication}) THEN {"frame"}
@@ -98,8 +118,8 @@ WhyOut(ev) ==
 Why(ev) ==
     CASE ev.e = "Req"   -> WhyReq(ev)
       [] ev.e = "Out"   -> WhyOut(ev)
-      [] ev.e = "Reset" -> <<"Reset", "decl", {"declaration_not_in_scope"}>>
-      [] OTHER          -> <<ev.e, "-", {"obs"}>>
+      [] ev.e = "Reset" -> <<"Reset", "decl@-", {"declaration_not_in_scope"}>>
+      [] OTHER          -> <<ev.e, "-@-", {"obs"}>>
 
 \* requests that never change the state: a rejected one does not end the validation of the execution
 StateNeutral(ev) ==
